@@ -18,11 +18,29 @@ from .frontend import ClassInfo, FunctionInfo, Program, is_stub
 
 def make_inline_hook(prog: Program, cls: Optional[ClassInfo], module, max_depth: int = 3, skip: tuple = ()):
     stack: list[str] = []
+    cls_stack: list = []
+
+    def _super_target(fn: ast.AST) -> Optional[FunctionInfo]:
+        """super().m(...) : the next definition of m after the class whose method is being interpreted"""
+        if not (isinstance(fn, ast.Attribute) and isinstance(fn.value, ast.Call) and isinstance(fn.value.func, ast.Name)
+                and fn.value.func.id == "super" and not fn.value.args and cls is not None):
+            return None
+        cur = cls_stack[-1] if cls_stack else cls
+        mro = prog.mro(cls)
+        names = [k.fullname for k in mro]
+        start = names.index(cur.fullname) + 1 if cur is not None and cur.fullname in names else 1
+        for k in mro[start:]:
+            if fn.attr in k.methods:
+                return k.methods[fn.attr]
+        return None
 
     def hook(env: Env, call: ast.Call) -> Any:
         target: Optional[FunctionInfo] = None
         fn = call.func
-        if isinstance(fn, ast.Attribute) and isinstance(fn.value, ast.Name) and fn.value.id == "self" and cls is not None:
+        if _super_target(fn) is not None:
+            target = _super_target(fn)
+            params_off = 1
+        elif isinstance(fn, ast.Attribute) and isinstance(fn.value, ast.Name) and fn.value.id == "self" and cls is not None:
             target = prog.lookup_method(cls, fn.attr)
             params_off = 1
             if target is not None:
@@ -67,11 +85,13 @@ def make_inline_hook(prog: Program, cls: Optional[ClassInfo], module, max_depth:
                     arg = bound[x.value.id]
                     sub.vars[key] = evaluate(env, ast.copy_location(ast.Attribute(value=arg, attr=x.attr, ctx=ast.Load()), arg))
         stack.append(target.fullname)
+        cls_stack.append(target.cls)
         try:
             body = target.node.body
             outs = interp(body, sub)
         finally:
             stack.pop()
+            cls_stack.pop()
         live = [o for o in outs if o.kind != "raise"]
         if len(live) == 1 and live[0].kind == "return" and live[0].value is not None:
             # attribute stores made by the helper are visible to the caller
